@@ -41,3 +41,84 @@ def prepare_tasks(ctx, which=("memory.prepareROM", "memory.prepareRAM")):
 
 def dump_tasks(ctx):
     return [Task("(*memory.%s).DumpRAM" % k, "(*memory.%s).DumpRAM" % k) for k in ("none", "mbc1", "mbc2", "mbc3", "mbc5")]
+
+
+# power-on register values of each controller (documented: ROM bank register 1 - bank 1 at 4000-7FFF -, upper bits / RAM bank 0,
+# simple banking mode, cartridge RAM disabled) together with its representation invariant
+POWER_ON = {
+    "memory.newMBC1": ("valid1(m) && m.bank1 == 1 && m.bank2 == 0 && !m.mode1 && !m.ramEnabled && m.romBank0 == 0 && m.romBank1 == 1", "mbc1"),
+    "memory.newMBC2": ("valid2(m) && m.romBank == 1 && !m.ramEnabled", "mbc2"),
+    "memory.newMBC3": ("valid3(m) && m.romBank == 1 && m.ramBank == 0 && !m.ramEnabled", "mbc3"),
+    "memory.newMBC5": ("valid5(m) && m.romBank == 1 && m.ramBank == 0 && !m.ramEnabled", "mbc5"),
+}
+
+
+def constructors_lemma(ctx, eng, ce):
+    """each controller constructor, called with any legal number of ROM pages and RAM banks, returns a controller in its
+    documented power-on state that satisfies its representation invariant and holds exactly the pages it was given"""
+    import z3
+    from engine.driver import Lem
+    from engine.core import State, Iface, Ptr, SliceV
+    from engine.verify import World
+    from engine import vsl
+    lem = Lem()
+    p = ctx.prog
+    for fn, (post, kind) in POWER_ON.items():
+        if not p.has_func(fn):
+            lem.add("lemma:constructor:%s-exists" % kind, z3.BoolVal(True))
+            continue
+        st = State()
+        ctx.seed_globals(st)
+        w = World(eng, st)
+        eng.ev = ce
+        eng.contracts = ce.contracts
+        eng.modular = set()
+        f = p.func(fn)
+        args = []
+        env0 = {}
+        for prm in f.params:
+            tn = p.tname(prm["t"])
+            if tn == "*memory.rtc":
+                a = w.component("memory.rtc")
+                st.pc.append(ce.ev.as_bool(ce.ev.eval(vsl.parse("rtcOK(r)"), {"r": vsl.TV(a, ce.ev.ty_of(prm["t"]))}, st, st)))
+            else:
+                a = w.sym(prm["t"], prm["name"], "arg:" + prm["name"], ())
+                env0[prm["name"]] = vsl.TV(a, ce.ev.ty_of(prm["t"]))
+            args.append(a)
+        pre = "romOK(len(rom))" + (" && ramOK(len(ram))" if "ram" in env0 else "") + (" && len(rom) <= 128" if kind == "mbc1" else "")
+        st.pc.append(ce.ev.as_bool(ce.ev.eval(vsl.parse(pre), env0, st, st)))
+        eng.terminals, eng.obligs = [], []
+        outs = eng.call_function(st.fork(), f.name, args)
+        viol, shape = [], []
+        for (s, v) in outs:
+            if not isinstance(v, Iface) or v.t is None or p.tname(v.t) != "*memory." + kind:
+                shape.append(s.pcond())
+                continue
+            env = dict(env0, m=vsl.TV(v.v, ce.ev.ty_of(v.t)))
+            ok = ce.ev.as_bool(ce.ev.eval(vsl.parse(post), env, s, s))
+            viol.append(z3.And(s.pcond(), z3.Not(ok)))
+            # the controller holds the very slices it was given (no copy of a different size, no swap)
+            keeps = "len(m.rom) == len(rom)" + (" && len(m.ram) == len(ram)" if "ram" in env0 and kind != "mbc2" else "")
+            okk = ce.ev.as_bool(ce.ev.eval(vsl.parse(keeps), env, s, s))
+            mv = s.heap[v.v.obj]
+            same = True
+            try:
+                fl = {fd["name"]: x for fd, x in zip(p.struct_fields(s.otype[v.v.obj]), mv.items)}
+                same = isinstance(fl["rom"], SliceV) and fl["rom"].obj == env0["rom"].v.obj
+                if "ram" in env0 and kind != "mbc2":
+                    same = same and isinstance(fl["ram"], SliceV) and fl["ram"].obj == env0["ram"].v.obj
+            except Exception:
+                same = False
+            viol.append(z3.And(s.pcond(), z3.Or(z3.Not(okk), z3.BoolVal(not same))))
+        for t in eng.terminals:
+            shape.append(t.state.pcond())
+        lem.add("lemma:constructor:%s-power-on-state-and-invariant" % kind, z3.Or(*viol) if viol else z3.BoolVal(True))
+        lem.add("lemma:constructor:%s-returns-its-controller" % kind, z3.Or(*shape) if shape else z3.BoolVal(not outs))
+        lem.covers.append(("lemma:constructor:%s#cover" % kind, st.pcond()))
+    lem.stats = dict(eng.stats)
+    return lem
+
+
+def constructor_tasks(ctx):
+    from engine.driver import LemmaTask
+    return [LemmaTask("lemma:constructors", constructors_lemma, list(POWER_ON))]
